@@ -12,7 +12,8 @@ RULE = ("approximate_{pubo,qubo,puso,quso}_extrema on raw dicts (unsorted / repe
         "(dict and model objects) with admissible probability pairs including 0 and equal values, variable-free "
         "models, and (flagged class) stale models. Oracle: exact extrema from the reference truth table. "
         "Non-trivial = model with >= 2 variables and >= 2 non-constant terms; distinct = digest of (function, type, terms)")
-TIERS = {"quick": {"shards": 8, "cases": 500}, "thorough": {"shards": 16, "cases": 20000}}
+TIERS = {"quick": {"shards": 8, "cases": 6000}, "thorough": {"shards": 16, "cases": 50000}}
+FLOOR_BASE = {"quick": 500, "thorough": 20000}    # case counts the floors below were calibrated for; the launcher scales them
 FN = {"approximate_pubo_extrema": ("bool", False), "approximate_qubo_extrema": ("bool", True),
       "approximate_puso_extrema": ("spin", False), "approximate_quso_extrema": ("spin", True)}
 TYPES = {"bool": ["dict", "QUBO", "PUBO", "PCBO", "QUBOMatrix", "PUBOMatrix"],
